@@ -119,7 +119,12 @@ func SafeExec(rn Runner, op string) (res string) {
 func PanicClass(e any) string { return "" }
 
 // Main is called from each driver's TestDriver.
-func Main(t *testing.T, name string, mk func(r *Rand) Runner) {
+func Main(t *testing.T, name string, mk func(r *Rand) Runner) { MainEnum(t, name, mk, nil) }
+
+// MainEnum is Main plus, in the thorough tier, a bounded-exhaustive phase: enum calls emit once
+// per enumerated op sequence; each sequence runs on a fresh Runner. (Support for the tie and the
+// search, never a substitute for a theorem.)
+func MainEnum(t *testing.T, name string, mk func(r *Rand) Runner, enum func(emit func(ops []string))) {
 	mode := os.Getenv("VH_MODE")
 	out := os.Getenv("VH_OUT")
 	if mode == "" || out == "" {
@@ -154,6 +159,20 @@ func Main(t *testing.T, name string, mk func(r *Rand) Runner) {
 			if cl, ok := rn.(interface{ Close() }); ok {
 				cl.Close()
 			}
+		}
+		if enum != nil && os.Getenv("VH_TIER") == "thorough" {
+			c := cases
+			enum(func(ops []string) {
+				c++
+				rn := mk(NewRand(uint64(c)))
+				fmt.Fprintf(w, "# case %d seed %d driver %s\n", c, c, name)
+				for _, op := range ops {
+					fmt.Fprintf(w, "%s => %s\n", op, SafeExec(rn, op))
+				}
+				if cl, ok := rn.(interface{ Close() }); ok {
+					cl.Close()
+				}
+			})
 		}
 	case "replay":
 		in, err := os.Open(os.Getenv("VH_IN"))
